@@ -514,9 +514,32 @@ def m_str_endswith(ex, d, args, kwargs, st, sink, node):
     yield st, mk_bool(z3.SuffixOf(p.v, d.recv.v))
 
 
+TOTAL_ERROR_HANDLERS = ("surrogatepass", "replace", "ignore", "backslashreplace", "xmlcharrefreplace")
+
+
+def _errors_arg(args, kwargs):
+    """the `errors` argument of encode/decode as a python string ('strict' when absent); Unsupported when it is not a constant"""
+    v = args[1] if len(args) > 1 else kwargs.get("errors")
+    if len(args) > 2 or (set(kwargs) - {"errors", "encoding"}):
+        raise Unsupported("encode/decode with unexpected arguments")
+    if v is None:
+        return "strict"
+    t = z3.simplify(v.v)
+    if not z3.is_string_value(t):
+        raise Unsupported("encode/decode with a non-constant error handler")
+    return t.as_string()
+
+
 def m_str_encode(ex, d, args, kwargs, st, sink, node):
     enc = z3.simplify(args[0].v).as_string() if args else "utf-8"
     s = d.recv.v
+    errors = _errors_arg(args, kwargs)
+    if errors != "strict":
+        if enc != "utf-8" or errors not in TOTAL_ERROR_HANDLERS:
+            raise Unsupported(f"encode({enc!r}, {errors!r})")
+        # a total error handler: never raises; the bytes of an unencodable string are unspecified here
+        yield st, mk_bytes(z3.If(encodable(s), utf8(s), fresh(BYTES, "encoded_with_" + errors).v))
+        return
     if enc == "utf-8":
         for s2, ok in ex.fork(st, encodable(s)):
             if ok:
@@ -535,6 +558,12 @@ def m_str_encode(ex, d, args, kwargs, st, sink, node):
 def m_bytes_decode(ex, d, args, kwargs, st, sink, node):
     enc = z3.simplify(args[0].v).as_string() if args else "utf-8"
     b = d.recv.v
+    errors = _errors_arg(args, kwargs)
+    if errors != "strict":
+        if enc != "utf-8" or errors not in TOTAL_ERROR_HANDLERS:
+            raise Unsupported(f"decode({enc!r}, {errors!r})")
+        yield st, mk_str(z3.If(utf8_ok(b), unutf8(b), fresh(STR, "decoded_with_" + errors).v))
+        return
     if enc == "utf-8":
         for s2, ok in ex.fork(st, utf8_ok(b)):
             if ok:
@@ -612,6 +641,11 @@ def m_set_remove(ex, d, args, kwargs, st, sink, node):
         else:
             ex.raise_(s2, sink, "KeyError", origin="set.remove")
 
+
+# the number of positional arguments each model understands: a call with more (str.find(sub, start), list.pop(i, ...)) is outside the model
+METHOD_MAX_ARGS = {("seq", "append"): 1, ("seq", "pop"): 1, ("seq", "remove"): 1, ("str", "find"): 1, ("bytes", "find"): 1, ("str", "startswith"): 1, ("bytes", "startswith"): 1,
+                   ("str", "endswith"): 1, ("str", "encode"): 2, ("bytes", "decode"): 2, ("str", "rstrip"): 1, ("bytes", "join"): 1, ("str", "join"): 1, ("map", "get"): 2, ("map", "pop"): 2,
+                   ("set", "add"): 1, ("set", "remove"): 1}
 
 METHODS = {
     ("seq", "append"): m_seq_append,
